@@ -123,8 +123,48 @@ def ob_merge_inv(width, depth, mkl, timeout_ms):
         if r != "sat":
             return {"status": "unknown", "stats": stats.as_dict(), "funcs": funcs, "note": f"{r} on {name}"}
         cti = {"clause": name, "a": dump_sketch(m, a, pre), "b": dump_sketch(m, b, pre), "post": dump_sketch(m, a, post.heap)}
+        if name == "argument sketch unchanged":
+            # not an inductive statement: an exact fact about one merge from these two tables -- replayable
+            cex = {"kind": "hh-merge-arg", "width": width, "depth": depth, "mkl": mkl, "a": cti["a"], "b": cti["b"]}
+            rp = replay(cex)
+            if rp["reproduced"]:
+                return {"status": "cex", "stats": stats.as_dict(), "funcs": funcs, "cex": cex, "replay": rp, "finding_key": "merge-modifies-argument"}
         return {"status": "cti", "stats": stats.as_dict(), "funcs": funcs, "cti": cti, "note": "induction step fails for merge: " + str(cti)[:400]}
     return {"status": "proved", "stats": stats.as_dict(), "funcs": funcs}
+
+
+def replay_merge_arg(cex):
+    """install the two tables through the public arrays of real HeavyHitters sketches, merge, and look at the ARGUMENT:
+    a count that grew (or a cell that now names another key) makes the merged-from sketch over-count"""
+    import numpy as np
+    Hm = hhh.hh()
+    w, d, mkl = cex["width"], cex["depth"], cex["mkl"]
+
+    def mk(cells):
+        sk = Hm.HeavyHitters(w, d, mkl, phi=0.5)
+        tot = 0
+        for c in cells:
+            bs = bytes.fromhex(c["bytes"])
+            for i in range(mkl):
+                sk.lhh[c["row"], c["col"], i] = bs[i]
+            sk.key_lens[c["row"], c["col"]] = c["len"]
+            sk.lhh_count[c["row"], c["col"]] = c["count"]
+            tot += c["count"]
+        sk.n_added_records[0] = tot
+        return sk
+    A, B = mk(cex["a"]), mk(cex["b"])
+    before = (np.array(B.lhh).copy(), np.array(B.lhh_count).copy(), np.array(B.key_lens).copy())
+    A.merge(B)
+    fails = []
+    for c in cex["b"]:
+        r, cc = c["row"], c["col"]
+        key = bytes(before[0][r, cc, :int(before[2][r, cc])])
+        now = int(B.lhh_count[r, cc])
+        if now > int(before[1][r, cc]):
+            fails.append(f"after A.merge(B), B's cell ({r},{cc}) holding {key!r} went from {int(before[1][r, cc])} to {now}: B[{key!r}] = {int(B[key])} although B was not touched")
+        elif (np.array(B.lhh)[r, cc] != before[0][r, cc]).any() or int(B.key_lens[r, cc]) != int(before[2][r, cc]):
+            fails.append(f"after A.merge(B), B's cell ({r},{cc}) names another key")
+    return {"reproduced": bool(fails), "how": "two real HeavyHitters with the model's tables installed through lhh / key_lens / lhh_count; A.merge(B); B inspected", "failed_clauses": fails[:3]}
 
 
 def ob_maxcount_inv(width, depth, mkl, Lq, timeout_ms):
@@ -309,6 +349,8 @@ def replay(cex):
     if cex.get("kind") == "ngram":
         from checks import c12
         return c12.replay(cex)
+    if cex.get("kind") == "hh-merge-arg":
+        return replay_merge_arg(cex)
     return hhh.replay_hh_history(cex, judge=("overcount",) if cex.get("property", "overcount") == "overcount" else ("dominate",))
 
 
